@@ -62,6 +62,25 @@ impl CodeCache {
     self.exec_memory.make_executable();
   }
 
+  /// Snapshot of the ROM regions of the cache:
+  /// (write cursor, arena size, rom_high tag, [(key, offset, length, bytes_translated)])
+  #[cfg(gb_dynarec_verif)]
+  pub fn verif_snapshot(&self) -> (usize, usize, u16, Vec<(u32, usize, usize, usize)>) {
+    let (low, high) = self.code_blocks.verif_rom_regions();
+    let mut blocks = Vec::new();
+    for region in [low, high].iter() {
+      for (key, block) in region.cache.iter() {
+        blocks.push((*key, block.offset, block.length, block.bytes_translated));
+      }
+    }
+    (
+      self.write_cursor,
+      self.exec_memory.get_memory_area().len(),
+      high.verif_current_bank(),
+      blocks,
+    )
+  }
+
   pub fn get_memory_start_address(&self) -> usize {
     self.exec_memory.get_memory_area().as_ptr() as *const () as usize
   }
